@@ -103,9 +103,12 @@ def profile_event(cell):
             t30 = w * gam2 * vk + t30o
             t33 = kin - Vk + w * gam2 * vk * vk + t33o
             # which side of the minimiser of the residual function is the solution on? (slope of the LHS in T)
-            s1, s2 = c1 - t30o, c2 - t33o
+            # -- classified with the source terms the CODE used (its own deltaToTmunu), so that "minimiser only" describes
+            # what the solver did; the residuals d30/d33 below are against the harness's own moment algebra
             fp = WG.Fields.castFromNumpy(f[None, :]).getFieldPoint(0)
             dfp = WG.Fields.castFromNumpy(dF[k][None, :]).getFieldPoint(0)
+            c30, c33 = eom.deltaToTmunu(k, fp, vmid, deltas)
+            s1, s2 = c1 - float(c30), c2 - float(c33)
             h = 1e-5 * Tk
             slope = eom.temperatureProfileEqLHS(fp, dfp, Tk + h, s1, s2) - eom.temperatureProfileEqLHS(fp, dfp, Tk - h, s1, s2)
             lhs = eom.temperatureProfileEqLHS(fp, dfp, Tk, s1, s2)
